@@ -7,7 +7,7 @@ CONSTANTS
   C0 = 2
   Sp0 = 2
   Methods = {"PIT", "SN", "MPS"}
-  Twos = {"no"}
+  Twos = {"no", "cat"}
   AllowPl = TRUE
   AllowExcl = TRUE
   AllowReuse = TRUE
